@@ -1,3 +1,6 @@
 #!/usr/bin/env bash
 set -eu
-exec bin/buildcoop.sh c11 "${VERIF_OUT:-build/bin/c11}"
+out="${VERIF_OUT:-build/bin/c11}"
+go build -tags verif -overlay "$VERIF_OVERLAY" -o "$out" ./cmd/c11
+go build -race -tags verif -overlay "$VERIF_OVERLAY" -o "$out-race" ./cmd/c11
+exec bin/buildcoop.sh c11 "$out-coop"
